@@ -1,0 +1,74 @@
+//go:build verif
+
+// Contracts for package types, read by the /verif VC generator (govc).
+// This file contains comments only; it is compiled only with -tags verif.
+//
+// A time.Time (and Date, DateTime, SystemDate, SystemTime) is modelled as (abs, ns, loc);
+// time.year(abs, loc) etc. are the civil fields in that location (see /verif/spec/time.spec).
+//
+// verif:package github.com/uhppoted/uhppote-core/types
+package types
+
+// ---- C16: orders -----------------------------------------------------------------------------
+
+//@ func (Date).Before
+//@   params d, date
+//@   returns res
+//@   ensures order: res <==> time.lexLt3(time.year(d.abs, d.loc), time.month(d.abs, d.loc), time.day(d.abs, d.loc),
+//@                                       time.year(date.abs, date.loc), time.month(date.abs, date.loc), time.day(date.abs, date.loc))
+
+//@ func (Date).After
+//@   params d, date
+//@   returns res
+//@   ensures order: res <==> time.lexLt3(time.year(date.abs, date.loc), time.month(date.abs, date.loc), time.day(date.abs, date.loc),
+//@                                       time.year(d.abs, d.loc), time.month(d.abs, d.loc), time.day(d.abs, d.loc))
+
+//@ func (Date).Equals
+//@   params d, date
+//@   returns res
+//@   ensures order: res <==> (time.year(d.abs, d.loc) == time.year(date.abs, date.loc) &&
+//@                            time.month(d.abs, d.loc) == time.month(date.abs, date.loc) &&
+//@                            time.day(d.abs, d.loc) == time.day(date.abs, date.loc))
+
+//@ func (HHmm).Before
+//@   params h, t
+//@   returns res
+//@   ensures order: res <==> time.lexLt2(h.hours, h.minutes, t.hours, t.minutes)
+
+//@ func (HHmm).After
+//@   params h, t
+//@   returns res
+//@   ensures order: res <==> time.lexLt2(t.hours, t.minutes, h.hours, h.minutes)
+
+//@ func (HHmm).Equals
+//@   params h, t
+//@   returns res
+//@   ensures order: res <==> (h.hours == t.hours && h.minutes == t.minutes)
+
+// "a date-time is before an instant exactly when its whole-second timestamp is the smaller of
+// the two" - for date-times and instants from 1970 on.
+//@ func (DateTime).Before
+//@   params d, t
+//@   returns res
+//@   requires from1970: time.unixSec(d.abs) >= 0 && time.unixSec(t.abs) >= 0 && d.abs < 1000000000000000 && t.abs < 1000000000000000
+//@   ensures order: res <==> time.unixSec(d.abs) < time.unixSec(t.abs)
+
+// lemma functions (lemmas_verif.go): proved from the contracts above only
+//@ func lemmaDateTrichotomy
+//@   returns n
+//@   ensures exactlyOne: n == 1
+//@ func lemmaDateTransitive
+//@   returns ok
+//@   ensures transitive: ok
+//@ func lemmaDateMirror
+//@   returns ok
+//@   ensures mirror: ok
+//@ func lemmaHHmmTrichotomy
+//@   returns n
+//@   ensures exactlyOne: n == 1
+//@ func lemmaHHmmTransitive
+//@   returns ok
+//@   ensures transitive: ok
+//@ func lemmaHHmmMirror
+//@   returns ok
+//@   ensures mirror: ok
